@@ -298,7 +298,10 @@ pub async fn run() {
         system,
         addr: addr.to_string(),
         conns: HashMap::new(),
-        tokens: vec![],
+        // raw tokens survive the incarnation in a side file OUTSIDE the data directory
+        tokens: std::fs::read_to_string(format!("{dir}.tokens"))
+            .map(|t| t.lines().map(|l| l.to_string()).collect())
+            .unwrap_or_default(),
         maintain_cmd,
         nowait,
         dir,
@@ -497,6 +500,25 @@ impl Node {
                     None => "ok 0".into(),
                 }
             }
+            "scan-str" => {
+                let hits = scan(&self.dir, f[1].as_bytes());
+                if hits.is_empty() {
+                    "ok absent".into()
+                } else {
+                    format!("ok found {}", hits.join(","))
+                }
+            }
+            "scan-token" => match self.tokens.get(f[1].parse::<usize>().unwrap()) {
+                Some(t) => {
+                    let hits = scan(&self.dir, t.as_bytes());
+                    if hits.is_empty() {
+                        "ok absent".into()
+                    } else {
+                        format!("ok found {}", hits.join(","))
+                    }
+                }
+                None => "err no-such-token-index".into(),
+            },
             "ls" => {
                 let mut out = vec![];
                 ls(&self.dir, &self.dir, &mut out);
@@ -538,7 +560,8 @@ impl Node {
                 } else {
                     match self.tokens.get(f[2].parse::<usize>().unwrap()) {
                         Some(t) => t.clone(),
-                        None => return "err no-such-token-index".into(),
+                        // a token that was never issued
+                        None => format!("never-issued-token-{}", f[2]),
                     }
                 };
                 let id = r!(c.login_with_personal_access_token(&tok).await);
@@ -555,6 +578,7 @@ impl Node {
                 let tok = t.token.clone();
                 let k = self.tokens.len();
                 self.tokens.push(tok);
+                let _ = std::fs::write(format!("{}.tokens", self.dir), self.tokens.join("\n"));
                 format!("ok {k}")
             }
             "token" => {
